@@ -77,7 +77,7 @@ func ParseHeader(val string) (Header, error) {
 func (h *Header) Apply(hh http.Header) {
 	switch h.Action {
 	case Remove:
-		hh.Del(h.Name)
+		removeHeaders(hh, h.Name)
 	case RemoveByPrefix:
 		removeHeadersByPrefix(hh, h.Name)
 	case Empty:
@@ -105,13 +105,23 @@ func (h *Header) Apply(hh http.Header) {
 	}
 }
 
+// removeHeaders removes the header regardless of how its name is spelled in the map.
+// Keys are not necessarily canonical, see RenameCase.
+func removeHeaders(h http.Header, name string) {
+	for k := range h {
+		if strings.EqualFold(k, name) {
+			delete(h, k)
+		}
+	}
+}
+
 func removeHeadersByPrefix(h http.Header, prefix string) {
 	for k := range h {
 		if len(k) < len(prefix) {
 			continue
 		}
 		if strings.EqualFold(k[0:len(prefix)], prefix) {
-			h.Del(k)
+			delete(h, k)
 		}
 	}
 }
